@@ -553,6 +553,41 @@ func (sc *lcScn) waitAndRepair() {
 				}
 			}
 		}
+		// (e) cleanUp parked inside purgeChannels: `for len(ch) > 0 { <-ch }` lost the race for the last queued
+		// item against the write loop, which is still running at that point (session.go:399-414)
+		if !repaired {
+			for _, g := range gs {
+				if lcIgnore[g.id] || g.state != "chan receive" || !strings.Contains(g.text, "purgeChannels") {
+					continue
+				}
+				which := lcPurgeChannel(g.text)
+				for _, i := range sc.sessIdx() {
+					ls := sc.sess[i]
+					if !strings.Contains(g.text, fmt.Sprintf("reader(%p", ls)) {
+						continue
+					}
+					fmt.Fprintf(sc.out, "parked-purge %d %s\n", i, which)
+					switch which {
+					case "stop":
+						select {
+						case ls.s.stop <- nil:
+						default:
+						}
+					case "detach":
+						select {
+						case ls.s.detach <- "":
+						default:
+						}
+					default:
+						select {
+						case ls.s.send <- struct{}{}:
+						default:
+						}
+					}
+					repaired = true
+				}
+			}
+		}
 		// (d) a session whose writer has left and whose reader is blocked sending to the full stop channel
 		if !repaired {
 			for _, i := range sc.sessIdx() {
@@ -582,6 +617,40 @@ func (sc *lcScn) waitAndRepair() {
 			os.Exit(3)
 		}
 	}
+}
+
+// lcPurgeChannel: which channel the receive inside purgeChannels waits for, read off the source line that
+// the goroutine dump names.
+func lcPurgeChannel(stack string) string {
+	ls := strings.Split(stack, "\n")
+	for i, l := range ls {
+		if strings.Contains(l, "purgeChannels") && i+1 < len(ls) {
+			f := strings.Fields(strings.TrimSpace(ls[i+1]))
+			if len(f) == 0 {
+				break
+			}
+			j := strings.LastIndex(f[0], ":")
+			if j < 0 {
+				break
+			}
+			n, _ := strconv.Atoi(f[0][j+1:])
+			if src, err := os.ReadFile(f[0][:j]); err == nil {
+				sl := strings.Split(string(src), "\n")
+				if n >= 1 && n <= len(sl) {
+					switch {
+					case strings.Contains(sl[n-1], "s.stop"):
+						return "stop"
+					case strings.Contains(sl[n-1], "s.detach"):
+						return "detach"
+					case strings.Contains(sl[n-1], "s.send"):
+						return "send"
+					}
+				}
+			}
+			break
+		}
+	}
+	return "send?"
 }
 
 func (sc *lcScn) unstallAll() bool {
